@@ -98,6 +98,32 @@ namespace nmtools::index
             return at(shape_,axis);
         }
     } // mean_divisor
+
+    /**
+     * @brief Check if a (normalized) run-time axis list names an axis more than once.
+     * Such a list is not a valid reduction axis (numpy: "duplicate value in 'axis'").
+     * Single axis, None and compile-time axes are never reported.
+     */
+    template <typename axis_t>
+    constexpr auto has_repeated_axis([[maybe_unused]] const axis_t& axis)
+    {
+        if constexpr (meta::is_index_array_v<axis_t>
+            && !meta::is_constant_index_array_v<axis_t>
+            && !meta::is_tuple_v<axis_t>
+        ) {
+            auto n = (nm_size_t)len(axis);
+            for (nm_size_t i=0; i<n; i++) {
+                for (nm_size_t j=i+1; j<n; j++) {
+                    if (at(axis,i) == at(axis,j)) {
+                        return true;
+                    }
+                }
+            }
+            return false;
+        } else {
+            return false;
+        }
+    } // has_repeated_axis
 }
 
 namespace nmtools::view::detail
@@ -155,8 +181,8 @@ namespace nmtools::view
             using m_axis_t = decltype(m_axis);
             using result_t = decltype(mean_impl(unwrap(m_axis)));
             if constexpr (meta::is_maybe_v<m_axis_t> && meta::is_maybe_v<result_t>) {
-                // an axis outside [-dim,dim) has no result: report it instead of unwrapping an empty optional
-                return (has_value(m_axis)
+                // an axis outside [-dim,dim) or a repeated axis has no result: report it instead of unwrapping an empty optional
+                return ((has_value(m_axis) && !index::has_repeated_axis(unwrap(m_axis)))
                     ? mean_impl(unwrap(m_axis))
                     : result_t{meta::Nothing}
                 );
@@ -164,7 +190,7 @@ namespace nmtools::view
                 // run-time keepdims: either<maybe<keepdims view>,maybe<view>>
                 using left_t = meta::get_either_left_t<result_t>;
                 if constexpr (meta::is_maybe_v<left_t>) {
-                    return (has_value(m_axis)
+                    return ((has_value(m_axis) && !index::has_repeated_axis(unwrap(m_axis)))
                         ? mean_impl(unwrap(m_axis))
                         : result_t{left_t{meta::Nothing}}
                     );
